@@ -1032,6 +1032,10 @@ def run_lame(case):
     pair = case["pair"]
     if nu == 0 and "lam" in pair and "nu" in pair:
         raise Skip("lambda = nu = 0 does not determine mu")
+    if nu == 0 and "lam" not in pair and "nu" not in pair:
+        # lambda = 0 is then the result of a cancellation ((mu, E), (G, E): E - 2 mu): with the rounded E of the forward formula the
+        # exact answer may be -1e-17, for which deepali raises the documented ValueError (negative first parameter)
+        raise Skip("lambda = 0 by cancellation: the rounded moduli may correspond to a negative lambda (documented ValueError)")
     kw = {ELASTIC_NAMES[n]: qty[n] for n in pair}
     out = L.lame_parameters(**kw)
     if not (isinstance(out, tuple) and len(out) == 2):
